@@ -182,10 +182,47 @@ def validate_trace(trace, module="SluTrace.tla", cfg="SluTrace.cfg", tag="tv", e
     e = {"TRACE": trace}
     if env:
         e.update(env)
-    rc, out = run_tlc(os.path.join(SPEC, module), os.path.join(SPEC, cfg), md, env=e, workers=1, heap=heap, timeout=3000)
-    shutil.rmtree(md, ignore_errors=True)
-    verdicts = printed_json(out)
-    nlines = sum(1 for _ in open(trace))
+    for attempt in range(6):
+        rc, out = run_tlc(os.path.join(SPEC, module), os.path.join(SPEC, cfg), md, env=e, workers=1, heap=heap, timeout=3000)
+        shutil.rmtree(md, ignore_errors=True)
+        verdicts = printed_json(out)
+        nlines = sum(1 for _ in open(trace))
+        # An output so malformed that the operators of the specification are not defined on it (an index beyond a sequence the
+        # library returned shorter than its own header says, ...) makes TLC stop at that line with an evaluation error.  That is
+        # a verdict about the scenario, not a failure of the check: the scenario's events are replaced by one Unevaluable event
+        # (judged as an abnormal end) and the rest of the trace is validated as usual.
+        if rc != 0 and len(verdicts) < nlines and ("TLC threw an unexpected exception" in out or "evaluating the nested" in out) and attempt < 5:
+            lines = open(trace).read().split("\n")
+            lines = [x for x in lines if x != ""]
+            bad_i = len(verdicts)                    # 0-based index of the line TLC could not evaluate
+            sid = None
+            for i in range(bad_i, -1, -1):
+                try:
+                    ev = json.loads(lines[i])
+                except ValueError:
+                    continue
+                if ev.get("id"):
+                    sid = ev["id"]; break
+            if sid is None:
+                break
+            lo = bad_i
+            while lo > 0 and not (('"e":"Reset"' in lines[lo]) and ('"id":"%s"' % sid) in lines[lo]):
+                lo -= 1
+            hi = bad_i + 1
+            while hi < len(lines) and '"e":"Reset"' not in lines[hi]:
+                hi += 1
+            kind = "?"
+            try:
+                evb = json.loads(lines[bad_i]); kind = str(evb.get("fn") or evb.get("e"))
+            except ValueError:
+                pass
+            repl = [lines[lo]] if '"e":"Reset"' in lines[lo] else []
+            repl.append(json.dumps({"e": "Unevaluable", "id": sid, "at": kind}, separators=(",", ":")))
+            shutil.copy(trace, trace + ".unevaluable.%d" % attempt)
+            with open(trace, "w") as fh:
+                fh.write("".join(x + "\n" for x in lines[:lo] + repl + lines[hi:]))
+            continue
+        break
     if rc != 0 or "No error has been found" not in out or len(verdicts) != nlines:
         keep = os.path.join(WORK, "failed_" + tag)
         shutil.copy(trace, keep + ".ndjson")
